@@ -32,6 +32,16 @@ RULE = ('random model specs (harness components c + A x + B sin x, explicit and 
         'entries; distinct = (scenario, option cells, component kinds, solver stack); non-trivial = at least one '
         'approximated block with a nonlinear (B != 0) term was judged and all solvers reported convergence')
 MIN_JUDGED = {'quick': 150, 'thorough': 3000}
+REQUIRED_COUNTERS = (
+    ['cell:partial:fd/%s/%s' % (f, sc) for f in ('forward', 'backward', 'central', 'default')
+     for sc in ('abs', 'rel', 'rel_avg', 'rel_element', 'rel_legacy', 'default')] +
+    ['cell:partial:cs', 'cell:colored:cs', 'cell:colored:implicit', 'cell:colored:options-kept-from-declare_partials',
+     'obs:colored-fewer-evaluations', 'obs:colored-vs-uncolored', 'obs:restore-around-dynamic-coloring',
+     'cell:group-under-complex-step', 'obs:restore-around-semitotal-approx', 'obs:restore-around-total-approx',
+     'obs:restore-around-compute_totals', 'obs:group-approx-over-iterative-solver',
+     'obs:group-approx-with-implicit-component', 'obs:model-totals-through-approx-group',
+     'obs:bitwise-inputs', 'obs:bitwise-outputs', 'obs:bitwise-residuals', 'obs:step-observations',
+     'obs:implicit-state-block', 'obs:point-2'])
 SHARD_TIMEOUT = {'quick': 1200, 'thorough': 5400}
 ASSUMPTIONS = ['harness component functions are complex-safe and evaluated with round-off bounded by '
                '(nterms+8) eps sum|terms| (bound recomputed per case)',
@@ -1119,6 +1129,8 @@ def _run_group(case, acc):
                                     kp = 'approx-group-under-assembled-jacobian'
                                 elif any(k_.startswith(MECHANISMS) for k_, _, _ in out):
                                     kp = [k_ for k_, _, _ in out if k_.startswith(MECHANISMS)][0]
+                                elif has_mf:
+                                    kp = 'approx-group-with-matrix-free-comp'
                                 out.append((kp, 'model-totals', 'totals of the model through the approximated group '
                                             'differ from exact by %.3e (> %.3e); e.g. got %.8g exact %.8g' %
                                             (em.max(), tolF, Jm.ravel()[em.argmax()], Jr.ravel()[em.argmax()])))
